@@ -505,7 +505,9 @@ func edit(rng *rand.Rand, m *model, kind string, c interface{}) (vt.Ev, interfac
 		Reverse()
 	}
 	for try := 0; try < 20; try++ {
-		switch rng.Intn(15) {
+		switch rng.Intn(16) {
+		case 15: // the history goes on with a clone of the container: a clone is a container like any other
+			return vt.Ev{"op": "adoptclone", "err": ""}, cloneOf(c)
 		case 14: // AppendColumns with good columns followed by one of the wrong height: an error, and nothing appended
 			if single {
 				continue
